@@ -182,6 +182,43 @@ theorem toOp_noMapper (ops : List POp) : ∀ op ∈ ops.map POp.toOp, NoMapper o
   obtain ⟨o, _, rfl⟩ := List.mem_map.mp hop
   cases o <;> simp [POp.toOp, NoMapper]
 
+/-- every mapped call's file is inside the file mapper (vacuous without a mapper) -/
+def FilesInMapper (mapper : Option (List Nat)) (ops : List POp) : Prop :=
+  ∀ m, mapper = some m → ∀ t q n, POp.writeFor t q n ∈ ops → q.builtin = false → q.file < m.length
+
+/-- the only step of a printer's call sequence that can panic in the writer is `map[original_pos.file]` -/
+theorem run_total (p : Policy) (hp : p.Sound) (ops : List POp) : ∀ st : WState, FilesInMapper st.mapper ops →
+    ∃ st', run p st (ops.map POp.toOp) = some st' := by
+  induction ops with
+  | nil => intro st _; exact ⟨st, rfl⟩
+  | cons op ops ih =>
+    intro st hm
+    have hstep : ∃ s1, step p st (POp.toOp op) = some s1 := by
+      cases op with
+      | write t => exact ⟨_, rfl⟩
+      | indent => exact ⟨_, rfl⟩
+      | dedent => exact ⟨_, rfl⟩
+      | writeFor t q n =>
+        simp only [POp.toOp, step, writeFor]
+        cases hb : q.builtin
+        · cases hmp : st.mapper with
+          | none =>
+            simp only [Bool.false_eq_true, if_false]
+            cases n <;> exact ⟨_, rfl⟩
+          | some m =>
+            have hlt := hm m hmp t q n (by simp) hb
+            simp only [Bool.false_eq_true, if_false, List.getElem?_eq_getElem hlt]
+            cases n <;> exact ⟨_, rfl⟩
+        · exact ⟨_, rfl⟩
+    obtain ⟨s1, hs⟩ := hstep
+    have hm1 : s1.mapper = st.mapper :=
+      (grow_step p hp st s1 (POp.toOp op) (toOp_noMapper [op] _ (by simp)) hs).2.2.2.2
+    obtain ⟨st', h'⟩ := ih s1 (by
+      rw [hm1]
+      intro m hmp t q n hmem hb
+      exact hm m hmp t q n (List.mem_cons_of_mem _ hmem) hb)
+    exact ⟨st', by simp only [List.map_cons, run, hs]; exact h'⟩
+
 /-- the `sources` index the writer records for a position in file `f`: `f` itself without a mapper, else `map[f]` -/
 def fileIndexOf (mapper : Option (List Nat)) (f : Nat) : Option Nat :=
   match mapper with
